@@ -106,6 +106,9 @@ def fingerprint(sh, obj):
                  'prefix', 'namespaceURI', 'literalname', 'atkeyword', 'href', 'specificity'):
         if hasattr(type(obj), name) or hasattr(obj, name):
             out.append((name, safe(lambda n=name: getattr(obj, n))))
+    pv = getattr(obj, 'propertyValue', None)
+    if pv is not None:
+        out.append(('propertyValue', safe(lambda: (pv.cssText, pv.wellformed, id(pv)))))
     for attr in ('style', 'media', 'selectorList', 'cssRules'):
         sub = getattr(obj, attr, None)
         if sub is not None and sub is not obj:
@@ -119,7 +122,7 @@ def fingerprint(sh, obj):
 BAD_TAILS = [' }', ' x', ';;x', ' {', ' ]', ' )', ' "', ' @x', ' $', ' ,', ' !', ' :', ' z|y', ' \\']
 WRONG_KIND = ['@charset "ascii";', '@import "q.css";', '@namespace r "u3";', 'k { top: 0 }', '@media tv { k { top: 0 } }',
               '@page { margin: 0 }', '@font-face { font-family: k }', '@foo k;', '/*k*/', '@top-right { content: "k" }',
-              'top: 0', 'k', 'print', '', ' ']
+              'top: 0', 'k', 'print', '', ' ', '/*k*/', ' /*a*/ /*b*/ ', '/**/;']
 
 
 def mutate(rnd, text):
